@@ -13,12 +13,24 @@ func (s *State) dead() bool {
 func (s *State) kill() { s.pc = append(s.pc, tFalse) }
 
 func (x *Exec) execBlock(st *State, list []ast.Stmt) *State {
-	for _, s := range list {
+	for i, s := range list {
 		if st == nil {
 			return nil
 		}
 		if x.cur().fi.markers[s] {
 			continue
+		}
+		// tail duplication: a straight-line continuation after a branching
+		// statement is executed once per branch instead of on the merged state
+		// (the merged state of a large switch makes every later query slow)
+		if isBranching(s) && i+1 < len(list) && straightLine(list[i+1:]) && x.spec == 0 {
+			x.contFor[s] = list[i+1:]
+			st = x.exec(st, s)
+			delete(x.contFor, s)
+			if st != nil && st.dead() {
+				return nil
+			}
+			return st
 		}
 		st = x.exec(st, s)
 		if st != nil && st.dead() {
@@ -26,6 +38,46 @@ func (x *Exec) execBlock(st *State, list []ast.Stmt) *State {
 		}
 	}
 	return st
+}
+
+func isBranching(s ast.Stmt) bool {
+	switch s.(type) {
+	case *ast.SwitchStmt, *ast.TypeSwitchStmt, *ast.IfStmt:
+		return true
+	}
+	return false
+}
+
+// straightLine: at most a few statements without loops or branches.
+func straightLine(list []ast.Stmt) bool {
+	if len(list) > 4 {
+		return false
+	}
+	ok := true
+	for _, s := range list {
+		ast.Inspect(s, func(n ast.Node) bool {
+			switch n.(type) {
+			case *ast.ForStmt, *ast.RangeStmt, *ast.SwitchStmt, *ast.TypeSwitchStmt, *ast.IfStmt, *ast.SelectStmt, *ast.FuncLit, *ast.LabeledStmt, *ast.BranchStmt, *ast.DeferStmt:
+				ok = false
+			}
+			return ok
+		})
+	}
+	return ok
+}
+
+// applyCont runs the pending continuation of branching statement s on the
+// state at the end of one of its branches.
+func (x *Exec) applyCont(s ast.Stmt, st *State) *State {
+	rest, ok := x.contFor[s]
+	if !ok || st == nil {
+		return st
+	}
+	// the continuation must not be applied again by nested statements
+	delete(x.contFor, s)
+	out := x.execBlock(st, rest)
+	x.contFor[s] = rest
+	return out
 }
 
 func (x *Exec) exec(st *State, s ast.Stmt) *State {
@@ -142,8 +194,7 @@ func (x *Exec) exec(st *State, s ast.Stmt) *State {
 		}
 		x.unsupported(s, "branch statement %s", s.Tok)
 	case *ast.DeferStmt:
-		fr := x.cur()
-		fr.defers = append(fr.defers, deferred{call: s.Call})
+		st.defers = append(st.defers, deferred{call: s.Call, frame: x.cur()})
 		return st
 	case *ast.GoStmt:
 		// the spawned goroutine is not executed; its arguments are evaluated
@@ -153,9 +204,16 @@ func (x *Exec) exec(st *State, s ast.Stmt) *State {
 		x.abstracted("go statement")
 		return st
 	case *ast.SendStmt:
-		x.eval(st, s.Chan)
-		x.eval(st, s.Value)
-		x.abstracted("channel send")
+		ch := x.eval(st, s.Chan)
+		ct := x.typeOf(s.Chan).Underlying().(*types.Chan)
+		v := x.evalAs(st, s.Value, ct.Elem())
+		// ghost record of the last value sent and the number of sends per channel
+		srt := x.p.Reg.sortOf(ct.Elem())
+		hn := "ghost$sent$" + sanitize(string(srt))
+		x.setHeap(st, hn, Store(x.heap(st, hn, srt), ch, v))
+		cnt := x.hread(st, "ghost$sentn", SInt, ch)
+		x.setHeap(st, "ghost$sentn", Store(x.heap(st, "ghost$sentn", SInt), ch, Add(cnt, IntLit(1))))
+		x.abstracted("channel send (recorded in ghost state; blocking not modelled)")
 		return st
 	case *ast.SelectStmt:
 		return x.execSelect(st, s)
@@ -306,25 +364,27 @@ func (x *Exec) execIf(st *State, s *ast.IfStmt) *State {
 		}
 	}
 	c := x.eval(st, s.Cond)
+	c = x.simplifyKnown(st, c)
 	if c.isTrue() {
-		return x.execBlock(st, s.Body.List)
+		return x.applyCont(s, x.execBlock(st, s.Body.List))
 	}
 	if c.isFalse() {
 		if s.Else != nil {
-			return x.exec(st, s.Else)
+			return x.applyCont(s, x.exec(st, s.Else))
 		}
-		return st
+		return x.applyCont(s, st)
 	}
 	n := len(st.pc)
 	t := st.clone()
 	t.pc = append(t.pc, c)
 	e := st
 	e.pc = append(e.pc, Not(c))
-	tEnd := x.execBlock(t, s.Body.List)
+	tEnd := x.applyCont(s, x.execBlock(t, s.Body.List))
 	eEnd := e
 	if s.Else != nil {
 		eEnd = x.exec(e, s.Else)
 	}
+	eEnd = x.applyCont(s, eEnd)
 	return x.merge(n, []*State{tEnd, eEnd})
 }
 
@@ -429,6 +489,9 @@ func (x *Exec) execSwitch(st *State, s *ast.SwitchStmt, label string) *State {
 	}
 	x.loops = x.loops[:len(x.loops)-1]
 	ends = append(ends, lc.breaks...)
+	for i := range ends {
+		ends[i] = x.applyCont(s, ends[i])
+	}
 	return x.merge(n, ends)
 }
 
@@ -504,6 +567,9 @@ func (x *Exec) execTypeSwitch(st *State, s *ast.TypeSwitchStmt) *State {
 	}
 	x.loops = x.loops[:len(x.loops)-1]
 	ends = append(ends, lc.breaks...)
+	for i := range ends {
+		ends[i] = x.applyCont(s, ends[i])
+	}
 	return x.merge(n, ends)
 }
 
@@ -625,6 +691,13 @@ func (x *Exec) place(st *State, e ast.Expr) place {
 			m := x.eval(st, e.X)
 			k := x.evalAs(st, e.Index, u.Key())
 			return place{kind: plMap, mapT: u, mref: m, key: k, typ: u.Elem()}
+		case *types.Array:
+			i := x.eval(st, e.Index)
+			if n, ok := i.intVal(); ok && n.IsInt64() && n.Int64() >= 0 && n.Int64() < u.Len() && x.p.Reg.structOf(x.typeOf(e.X)) != nil {
+				pl := x.place(st, e.X)
+				pl.path = append(append([]int(nil), pl.path...), int(n.Int64()))
+				return pl
+			}
 		}
 	}
 	x.unsupported(e, "assignment target %s", x.nodeText(e))
@@ -634,7 +707,7 @@ func (x *Exec) place(st *State, e ast.Expr) place {
 // the type reached by following path from typ
 func pathType(typ types.Type, path []int) types.Type {
 	for _, i := range path {
-		typ = typ.Underlying().(*types.Struct).Field(i).Type()
+		typ = aggFieldType(typ, i)
 	}
 	return typ
 }
@@ -643,7 +716,7 @@ func (x *Exec) getPath(root *Term, typ types.Type, path []int) *Term {
 	for _, i := range path {
 		ss := x.p.Reg.structOf(typ)
 		root = getField(ss, root, i)
-		typ = typ.Underlying().(*types.Struct).Field(i).Type()
+		typ = aggFieldType(typ, i)
 	}
 	return root
 }
@@ -654,7 +727,7 @@ func (x *Exec) setPath(root *Term, typ types.Type, path []int, v *Term) *Term {
 	}
 	ss := x.p.Reg.structOf(typ)
 	i := path[0]
-	ft := typ.Underlying().(*types.Struct).Field(i).Type()
+	ft := aggFieldType(typ, i)
 	inner := x.setPath(getField(ss, root, i), ft, path[1:], v)
 	return setField(ss, root, i, inner)
 }
@@ -724,4 +797,33 @@ func (x *Exec) writePlace(st *State, pl place, v *Term, at ast.Node) {
 	case plMap:
 		x.mapStore(st, pl.mapT, pl.mref, pl.key, v, at)
 	}
+}
+
+// simplifyKnown decides a condition that is literally assumed (or whose
+// negation is) on the current path; a cheap way to avoid executing branches
+// that a precondition rules out.
+func (x *Exec) simplifyKnown(st *State, c *Term) *Term {
+	if c.IsLeaf() && (c.isTrue() || c.isFalse()) {
+		return c
+	}
+	nc := Not(c)
+	for _, f := range st.pc {
+		if f == c {
+			return tTrue
+		}
+		if f == nc {
+			return tFalse
+		}
+		if f.Op == "and" {
+			for _, g := range f.Args {
+				if g == c {
+					return tTrue
+				}
+				if g == nc {
+					return tFalse
+				}
+			}
+		}
+	}
+	return c
 }
